@@ -282,3 +282,17 @@ contract(
     note="a first advertisement line `<name> NUL <capabilities>`: the name is returned exactly (no byte of it is "
          "stripped or lost), whatever the capability list holds; the list itself is the bounded stand-in's subject",
 )
+contract(
+    prop=["C19"], file=F, func="parse_cmd_pkt",
+    params={"line": "bytes"}, returns="tuple",
+    ghost_params={"p": "int"},
+    requires=["0 <= p and p < len(line) - 1 and line[p] == 32", "all(line[k] != 32 for k in range(0, p))",   # first blank at p
+              "line[len(line) - 1] == 0"],                                                                   # NUL-terminated arguments
+    raises={},
+    ensures=["result[0] == line[:p]"],
+    note="command packet `<cmd> SP <arg> NUL ...`: the command is everything before the FIRST blank (arguments may contain blanks); "
+         "the argument list is the bounded stand-in's subject",
+)
+# format_capability_line / format_ref_line with a capability list: `b"".join([b" " + c for c in capabilities])` is a list
+# comprehension over an untracked iterable - outside the engine's subset (tried: the comprehension and the join stay opaque);
+# covered by the bounded stand-in c19_roundtrip part (e) only.
